@@ -2,7 +2,7 @@
    Everything here is executable Gallina; no proofs. *)
 From Coq Require Import List NArith ZArith String Bool.
 Import ListNotations.
-From UV Require Import Py.Val Py.Str Py.Utf8 Py.Regex Py.UrlLib Gen.Patterns Ural.TrieDict Ural.Utils Ural.HostnameTrieSet Ural.SuffixTrie Ural.Tld Proofs.SuffixTrieFacts Py.Pct Ural.Quote Spec.C14 Gen.Tables Ural.FormatUrl Ural.InferRedirection Ural.Lru.
+From UV Require Import Py.Val Py.Str Py.Utf8 Py.Regex Py.UrlLib Gen.Patterns Ural.TrieDict Ural.Utils Ural.HostnameTrieSet Ural.SuffixTrie Ural.Tld Proofs.SuffixTrieFacts Py.Pct Ural.Quote Spec.C14 Gen.Tables Ural.FormatUrl Ural.InferRedirection Ural.Lru Ural.IsUrl.
 Open Scope string_scope.
 
 Definition opt_wrap (o : option val) : val :=
@@ -405,6 +405,28 @@ Definition do_lrutrie (arg : val) : val :=
   | _ => vbad
   end.
 
+(* ---------------- is_url / urls_from_text (C16) ---------------- *)
+(* arg: env (string ...) -> for each string the answers under the 16 configurations
+   (bit 3 require_protocol, bit 2 tld_aware, bit 1 allow_spaces_in_path, bit 0 only_http_https) *)
+Definition all_opts : list is_url_opts :=
+  flat_map (fun rp => flat_map (fun ta => flat_map (fun sp => map (fun oh =>
+    {| require_protocol := rp; tld_aware := ta; allow_spaces_in_path := sp; only_http_https := oh |})
+    [false; true]) [false; true]) [false; true]) [false; true].
+
+Definition do_is_url (arg : val) : val :=
+  match arg with
+  | VL [ev; VL strs] =>
+      let e := env_of ev in
+      VL (map (fun s => VL (map (fun o => vres VB (is_url e o s)) all_opts)) (strs_of strs))
+  | _ => vbad
+  end.
+
+Definition do_urls_from_text (arg : val) : val :=
+  match arg with
+  | VS text => vstrs (urls_from_text text)
+  | _ => vbad
+  end.
+
 (* ---------------- dispatch ---------------- *)
 Definition table : list (str * (val -> val)) :=
   [ (lit "triedict", do_triedict);
@@ -423,7 +445,9 @@ Definition table : list (str * (val -> val)) :=
     (lit "infer", do_infer);
     (lit "lru", do_lru);
     (lit "lru_misc", do_lru_misc);
-    (lit "lrutrie", do_lrutrie) ].
+    (lit "lrutrie", do_lrutrie);
+    (lit "is_url", do_is_url);
+    (lit "urls_from_text", do_urls_from_text) ].
 
 Fixpoint find_fn (name : str) (l : list (str * (val -> val))) : option (val -> val) :=
   match l with
